@@ -60,6 +60,8 @@ type RunConfig struct {
 	Avoid []string `json:"avoid,omitempty"`
 	// IgnoreAvoid: constraints a profile lifts on purpose (e.g. static worlds, where the recorded trigger needs a history)
 	IgnoreAvoid []string `json:"ignore_avoid,omitempty"`
+	// ExtraAvoid: constraints a profile adds on its own (the narrowed form of one it lifts)
+	ExtraAvoid []string `json:"extra_avoid,omitempty"`
 	World       *World   `json:"world"`
 	Ops         []Op     `json:"ops"`
 }
